@@ -77,8 +77,8 @@ class RepoMaterial:
         return self.rng.choice(['VF_Base', 'VF_Base', 'VF_Sub', 'VF_Other',
                                 'VF_Link', 'vf_base', 'VF_NoSuch'])
 
-    def classname(self):
-        s = self.classname_str()
+    def classname(self, s=None):
+        s = s or self.classname_str()
         r = self.rng.random()
         if r < 0.5:
             return s
@@ -242,12 +242,19 @@ class RepoMaterial:
         rng = self.rng
         r = rng.random()
         obj = rng.choice(['VF_Base', CIMClassName('VF_Base'),
-                          CIMClassName('VF_Base', namespace=self.real_ns())])
+                          CIMClassName('VF_Base', namespace=self.real_ns()),
+                          CIMClassName('VF_Base', namespace=self.real_ns(),
+                                       host='somehost:5988')])
         if r < 0.7:
             t = rng.choice(cimgen.SIMPLE_TYPES)
             v = cimgen.value(rng, t, False, null=0.1)
             va = cimgen.value(rng, t, True, null=0.1,
                               nulls=rng.random() < 0.3)
+            if t == 'char16' and rng.random() < 0.6:
+                # the CIM data type class instead of a plain one-character str
+                v = pywbem.Char16(v) if v is not None else None
+                va = [pywbem.Char16(x) if x is not None else None
+                      for x in va] if va is not None else None
             if rng.random() < 0.08:
                 t = 'datetime'
                 v = None
@@ -287,6 +294,12 @@ class RepoMaterial:
         ns = self.real_ns()
         pool = self.info['base'][ns]
         p = rng.choice(pool).copy()
+        q = rng.random()
+        if q < 0.25:
+            p.namespace = None       # as returned by EnumerateInstanceNames
+        elif q < 0.5:
+            p.namespace = ns
+            p.host = 'otherhost:5989'   # as returned by AssociatorNames
         return ('InstMeth', p, None, {'S': cimgen.string(rng)})
 
     def _shape(self, mname, obj, t, v, va, emb=None):
@@ -364,8 +377,8 @@ class HostileMaterial(RepoMaterial):
         return self.name() if self.rng.random() < 0.3 \
             else cimgen.classname(self.rng)
 
-    def classname(self):
-        s = self.classname_str()
+    def classname(self, s=None):
+        s = s or self.classname_str()
         r = self.rng.random()
         if r < 0.4:
             return s
@@ -636,7 +649,8 @@ def gen_call(rng, G, op=None, context=None):
         args = (G.new_class(),)
         opt('namespace', G.ns())
     elif op == 'DeleteClass':
-        args = (rng.choice(['VF_New0', 'VF_New1', 'VF_NoSuch', 'VF_Link'])
+        args = (G.classname(rng.choice(['VF_New0', 'VF_New1', 'VF_NoSuch',
+                                        'VF_Link']))
                 if not G.hostile else G.classname(),)
         opt('namespace', G.ns())
     elif op == 'EnumerateQualifiers':
